@@ -100,6 +100,21 @@ def rule(rid, floor=1, tier='quick'):
     return deco
 
 
+def explanation(mod, rules):
+    """module docstring + the docstrings of the rules it does not mention yet (rules added after the docstring was written)"""
+    doc = ' '.join((getattr(mod, 'EXPLANATION', None) or mod.__doc__ or '').split())
+    extra = []
+    for r in rules:
+        if ('%s ' % r.rule_id) in doc or ('%s)' % r.rule_id) in doc or ('%s,' % r.rule_id) in doc or ('%s:' % r.rule_id) in doc or ('%s.' % r.rule_id) in doc:
+            continue
+        d = ' '.join((r.__doc__ or '').split())
+        if d:
+            extra.append('%s: %s' % (r.rule_id, d))
+    if extra:
+        doc += ' Further rules -- ' + '; '.join(extra) + '.'
+    return doc
+
+
 def load_rules(prop):
     mod = importlib.import_module('sa.rules.%s' % prop.lower())
     rules = [v for v in vars(mod).values() if callable(v) and hasattr(v, 'rule_id')]
@@ -215,7 +230,7 @@ def write_evidence(ctx, wall, seed, ok, known, new):
         if o.rule not in seen_rules or o.status != 'ok':
             seen_rules.add(o.rule)
             samples.append(o.as_dict())
-    doc = getattr(mod, 'EXPLANATION', mod.__doc__ or '')
+    doc = explanation(mod, rules)
     ev = {
         'property_id': ctx.prop,
         'tier': ctx.tier,
